@@ -383,6 +383,21 @@ func genCohortValue(r *gen.RNG) ref.Bits {
 	if r.Chance(1, 8) {
 		return altEncoding(r, distinguishedValue(r))
 	}
+	if r.Chance(1, 10) {
+		// integers with trailing zeros just inside / outside a machine-integer bound: the conversions must give
+		// the same answer for 1844674407370955161e1 and 18446744073709551610
+		bnd := new(big.Int).Lsh(ref.One, uint(r.Pick(31, 32, 63, 64)))
+		jz := r.Range(1, 6)
+		c := new(big.Int).Quo(bnd, ref.Pow10(jz))
+		c.Sub(c, big.NewInt(int64(r.Range(-1, 40))))
+		if r.Chance(1, 3) {
+			c.Sub(c, r.BigBelow(new(big.Int).Quo(c, big.NewInt(40)))) // anywhere in the top 2.5 per cent
+		}
+		if c.Sign() <= 0 {
+			c.SetInt64(1)
+		}
+		return altEncoding(r, ref.Encode(neg, c, jz))
+	}
 	switch r.Intn(8) {
 	case 0:
 		return ref.Encode(neg, new(big.Int), r.Exp())
